@@ -1,4 +1,5 @@
 import Log4rsModel.Pattern.MeaningLemmas2
+import Log4rsModel.Pattern.RoundTripLemmas5
 /-
 C09 — Pattern encoder output equals the pattern's meaning for well-formed patterns.
 
@@ -10,14 +11,16 @@ Only property theorems and examples live here; the proofs' machinery is in
 `Pattern/MeaningLemmas*.lean` (compositionality of the encoder).
 
 Every theorem quantifies over all ASTs — every formatter and alias (`thread_id` too), arbitrary literal text in both
-escape styles, arguments, every nesting depth —, all records, all environments (date texts, thread
+escape styles, arguments, every nesting depth up to the code's limit `Profile.maxDepth` (= 64; what
+happens beyond it is `C09_depth_limit`) —, all records, all environments (date texts, thread
 name and ids, MDC content, build profile) and all character classifications that behave as Rust's
 on ASCII (`CCAscii`).
 -/
 namespace Log4rs.Pattern.Parse
 
 /-- Parser round trip, exact: parsing the printed AST yields precisely the pieces `piecesOf`
-(ordinary neighbouring characters merged into one `Text` piece), at every nesting depth. -/
+(ordinary neighbouring characters merged into one `Text` piece), at every nesting depth up to the
+code's limit (`WF` contains `depthPats ps ≤ P.maxDepth`). -/
 theorem C09_parse_show (cc : CharClass) (hcc : CCAscii cc) (P : Profile) (hus : P.underscoreNames = true) (hP : P.doubledCloseParen = true)
     (ps : List Pat) (h : WF P ps) :
     parse cc P (showPats ps) = .ok (piecesOf [] ps) :=
@@ -27,9 +30,9 @@ theorem C09_parse_show (cc : CharClass) (hcc : CCAscii cc) (P : Profile) (hus : 
 encoding the direct translation of the AST. No hypothesis on the date formats (a format chrono's
 item parser rejects is the `{ERROR: invalid date format …}` chunk on both sides). -/
 theorem C09_run_show (cc : CharClass) (hcc : CCAscii cc) (P : Profile) (hus : P.underscoreNames = true) (hP : P.doubledCloseParen = true)
-    (B : Build) (hB : B.mdcWhole = true) (env : Env) (r : Record) (ps : List Pat) (h : WF P ps) :
+    (B : Build) (hB : B.mdcWhole = true) (hE : B.mdcEmptyOk = true) (env : Env) (r : Record) (ps : List Pat) (h : WF P ps) :
     run cc P B env r (showPats ps) = encList env r (chunksOf B ps) := by
-  have hm := meaning_piecesOf B hB P.wordBits env r ps false h []
+  have hm := meaning_piecesOf B hB hE P.wordBits env r ps false h.1 []
   simp only [run, newEncoder, C09_parse_show cc hcc P hus hP ps h, omap]
   rw [hm]
   simp [ofText, seqOut_ok_nil]
@@ -37,35 +40,35 @@ theorem C09_run_show (cc : CharClass) (hcc : CCAscii cc) (P : Profile) (hus : P.
 /-- The operation stream (characters and style calls, in order) of encoding a printed
 well-formed AST, when chrono accepts its date formats. -/
 theorem C09_ops_parse_show (cc : CharClass) (hcc : CCAscii cc) (P : Profile) (hus : P.underscoreNames = true) (hP : P.doubledCloseParen = true)
-    (B : Build) (hB : B.mdcWhole = true) (env : Env) (r : Record) (ps : List Pat) (h : WF P ps)
+    (B : Build) (hB : B.mdcWhole = true) (hE : B.mdcEmptyOk = true) (env : Env) (r : Record) (ps : List Pat) (h : WF P ps)
     (hd : DatesOk B env ps) :
     run cc P B env r (showPats ps) = .ok (opsList env r (chunksOf B ps)) := by
-  rw [C09_run_show cc hcc P hus hP B hB env r ps h]
+  rw [C09_run_show cc hcc P hus hP B hB hE env r ps h]
   apply encList_eq_ops
   rw [rendered_chunksOf B env ps hd.1]
   exact hd.2
 
 /-- MAIN THEOREM. For every well-formed pattern (every AST of the documented grammar — all
 formatters and aliases including `thread_id`, MDC keys and defaults with escaped specials, every
-nesting depth), every record and environment: the text the encoder writes for the printed pattern
+nesting depth up to the code's limit of `Profile.maxDepth` = 64 open arguments), every record and environment: the text the encoder writes for the printed pattern
 is exactly the pattern's meaning — literal text with escapes reduced, each formatter's value
 (`???` for absent fields, MDC value or default, date in the requested format and zone, nested
 groups, debug/release groups by build profile), each under its format spec — nothing added,
 dropped or reordered. (`hus`, `hP`, `hB`: the current code, i.e. the defaults of `Profile` / `Build`.) -/
 theorem C09_encode_parse_show (cc : CharClass) (hcc : CCAscii cc) (P : Profile)
-    (hus : P.underscoreNames = true) (hP : P.doubledCloseParen = true) (B : Build) (hB : B.mdcWhole = true) (env : Env) (r : Record)
+    (hus : P.underscoreNames = true) (hP : P.doubledCloseParen = true) (B : Build) (hB : B.mdcWhole = true) (hE : B.mdcEmptyOk = true) (env : Env) (r : Record)
     (ps : List Pat) (h : WF P ps) (hd : DatesOk B env ps) :
     ∃ o, run cc P B env r (showPats ps) = .ok o ∧ o.text = denotePats env r ps :=
-  ⟨_, C09_ops_parse_show cc hcc P hus hP B hB env r ps h hd,
-    text_chunksOf B P.wordBits env r ps false h hd.1⟩
+  ⟨_, C09_ops_parse_show cc hcc P hus hP B hB hE env r ps h hd,
+    text_chunksOf B P.wordBits env r ps false h.1 hd.1⟩
 
 /-- Style calls are exactly: the level's style before and the plain style after every rendered
 highlight group, in order — a format spec never drops or moves them, nothing else sets a style. -/
 theorem C09_styles_only_around_highlight (cc : CharClass) (hcc : CCAscii cc) (P : Profile)
-    (hus : P.underscoreNames = true) (hP : P.doubledCloseParen = true) (B : Build) (hB : B.mdcWhole = true) (env : Env)
+    (hus : P.underscoreNames = true) (hP : P.doubledCloseParen = true) (B : Build) (hB : B.mdcWhole = true) (hE : B.mdcEmptyOk = true) (env : Env)
     (r : Record) (ps : List Pat) (h : WF P ps) (hd : DatesOk B env ps) :
     ∃ o, run cc P B env r (showPats ps) = .ok o ∧ o.styles = stylesPats env r ps :=
-  ⟨_, C09_ops_parse_show cc hcc P hus hP B hB env r ps h hd, styles_chunksOf B env r ps⟩
+  ⟨_, C09_ops_parse_show cc hcc P hus hP B hB hE env r ps h hd, styles_chunksOf B env r ps⟩
 
 /-- no highlight group, no style call -/
 theorem C09_no_highlight_no_styles (env : Env) (r : Record) (ps : List Pat)
@@ -80,19 +83,82 @@ theorem C09_debug_level_unstyled (env : Env) (r : Record) (ps : List Pat)
 /-- Aliases are equivalent — `thread_id` included: writing every formatter in its short form
 changes nothing; the outcome of construct + encode is the same for all records and environments. -/
 theorem C09_alias_equiv (cc : CharClass) (hcc : CCAscii cc) (P : Profile) (hus : P.underscoreNames = true) (hP : P.doubledCloseParen = true)
-    (B : Build) (hB : B.mdcWhole = true) (env : Env) (r : Record) (ps : List Pat) (h : WF P ps) :
+    (B : Build) (hB : B.mdcWhole = true) (hE : B.mdcEmptyOk = true) (env : Env) (r : Record) (ps : List Pat) (h : WF P ps) :
     run cc P B env r (showPats ps) = run cc P B env r (showPats (unaliasL ps)) := by
-  rw [C09_run_show cc hcc P hus hP B hB env r ps h,
-    C09_run_show cc hcc P hus hP B hB env r (unaliasL ps) (wfPats_unalias P.wordBits ps false h),
+  rw [C09_run_show cc hcc P hus hP B hB hE env r ps h,
+    C09_run_show cc hcc P hus hP B hB hE env r (unaliasL ps) (WF_unalias P ps h),
     chunksOf_unalias]
 
 /-- in particular `{thread_id}` and `{I}` -/
 theorem C09_thread_id_alias (cc : CharClass) (hcc : CCAscii cc) (P : Profile) (hus : P.underscoreNames = true) (hP : P.doubledCloseParen = true)
-    (B : Build) (hB : B.mdcWhole = true) (env : Env) (r : Record) :
+    (B : Build) (hB : B.mdcWhole = true) (hE : B.mdcEmptyOk = true) (env : Env) (r : Record) :
     run cc P B env r cs!"{thread_id}" = run cc P B env r cs!"{I}" := by
-  have h : WF P [.leaf .threadId true none] := by unfold WF; rfl
-  have := C09_alias_equiv cc hcc P hus hP B hB env r [.leaf .threadId true none] h
+  have h : WF P [.leaf .threadId true none] :=
+    ⟨rfl, by simp [depthPats_cons, depthPats_nil, depthPat_leaf]⟩
+  have := C09_alias_equiv cc hcc P hus hP B hB hE env r [.leaf .threadId true none] h
   simpa [showPats_cons, showPats_nil, showPat_leaf, unaliasL, unalias, leafName, showSpec] using this
+
+/-! ## the nesting limit -/
+
+/-- the elements in front of the first too-deep one are well formed when the whole list is -/
+theorem wfPats_okPrefix (P : Profile) (bits : Nat) (inArg : Bool) : ∀ (ps : List Pat),
+    wfPats bits inArg ps = true → wfPats bits inArg (okPrefix P ps) = true
+  | [], _ => by rw [okPrefix_nil, wfPats_nil]
+  | p :: ps, h => by
+    rw [wfPats_cons] at h
+    simp only [Bool.and_eq_true] at h
+    by_cases hd : depthPat p ≤ P.maxDepth
+    · rw [okPrefix_cons_ok P p ps hd, wfPats_cons, h.1, wfPats_okPrefix P bits inArg ps h.2]; rfl
+    · rw [okPrefix_cons_deep P p ps hd, wfPats_nil]
+
+/-- `WF` is honest about the limit: `Profile.maxDepth` (= `MAX_DEPTH = 64` of parser.rs, pinned by
+`C09_gen_max_depth`) open parenthesised arguments are inside, one more is outside. A pattern that
+is well formed but for going deeper — at any position, by any kind of argument (group body, date
+format, MDC key) — is parsed as: the pieces of the top-level elements in front of the first one
+that goes too deep, then `Error("expected '}'")`, and nothing after it (the rest of the pattern
+is swallowed; the text `nesting too deep` never reaches the output). -/
+theorem C09_depth_limit (cc : CharClass) (hcc : CCAscii cc) (P : Profile) (hus : P.underscoreNames = true)
+    (hP : P.doubledCloseParen = true) (ps : List Pat) (hwf : wfPats P.wordBits false ps = true)
+    (hdeep : P.maxDepth < depthPats ps) :
+    parse cc P (showPats ps) = .ok (piecesOf [] (okPrefix P ps) ++ [.error cs!"expected '}'"]) :=
+  parse_too_deep cc hcc P hus hP ps hwf hdeep
+
+/-- … and so the encoder writes the meaning of those elements followed by the marker
+`{ERROR: expected '}'}` — the behaviour C11 promises for rejected patterns, exactly. -/
+theorem C09_depth_limit_text (cc : CharClass) (hcc : CCAscii cc) (P : Profile) (hus : P.underscoreNames = true)
+    (hP : P.doubledCloseParen = true) (B : Build) (hB : B.mdcWhole = true) (hE : B.mdcEmptyOk = true) (env : Env) (r : Record)
+    (ps : List Pat) (hwf : wfPats P.wordBits false ps = true) (hdeep : P.maxDepth < depthPats ps)
+    (hd : DatesOk B env (okPrefix P ps)) :
+    ∃ o, run cc P B env r (showPats ps) = .ok o ∧
+      o.text = denotePats env r (okPrefix P ps) ++ errorMarker cs!"expected '}'" ∧
+      o.styles = stylesPats env r (okPrefix P ps) := by
+  have hwf' := wfPats_okPrefix P P.wordBits false ps hwf
+  have hm := meaning_piecesOf B hB hE P.wordBits env r (okPrefix P ps) false hwf' []
+  have hops : encList env r (chunksOf B (okPrefix P ps)) = .ok (opsList env r (chunksOf B (okPrefix P ps))) := by
+    apply encList_eq_ops
+    rw [rendered_chunksOf B env _ hd.1]
+    exact hd.2
+  refine ⟨opsList env r (chunksOf B (okPrefix P ps)) ++ ofText (errorMarker cs!"expected '}'"), ?_, ?_, ?_⟩
+  · simp only [run, newEncoder, C09_depth_limit cc hcc P hus hP ps hwf hdeep, omap, compileL_append,
+      encList_append]
+    rw [hm, hops]
+    simp [ofText, seqOut, compileL_cons, compileL_nil, compile, encList, encChunk]
+  · rw [text_append, text_chunksOf B P.wordBits env r _ false hwf' hd.1, ofText_text]
+  · rw [styles_append, styles_chunksOf B env r]
+    simp [ofText, Out.styles]
+
+/-- at the limit and one beyond it (tests of the two theorems' hypotheses on `{(`×n `x` `)}`×n):
+depth 64 is well formed, depth 65 is not and satisfies the hypotheses of `C09_depth_limit` -/
+def nestN : Nat → List Pat
+  | 0 => [.lit ⟨'x', .plain⟩]
+  | n + 1 => [.group .align false (nestN n) none]
+
+example : WF Profile.debug64 (nestN 64) := by decide +kernel
+example : ¬ WF Profile.debug64 (nestN 65) := by decide +kernel
+example : wfPats Profile.debug64.wordBits false (.lit ⟨'a', .plain⟩ :: nestN 65 ++ [.leaf .message false none]) = true ∧
+    Profile.debug64.maxDepth < depthPats (.lit ⟨'a', .plain⟩ :: nestN 65 ++ [.leaf .message false none]) ∧
+    (okPrefix Profile.debug64 (.lit ⟨'a', .plain⟩ :: nestN 65 ++ [.leaf .message false none])).length = 1 := by
+  decide +kernel
 
 /-! ## findings -/
 
@@ -107,15 +173,15 @@ theorem C09_F5_thread_id_alias_unparsable_unfixed :
 /-- F6 (a) (historical, repaired by commit 185a57e): inside a parenthesised argument the doubled
 form `))` did not produce `)`: the first `)` closed the argument, whatever followed. -/
 theorem C09_F6_doubled_close_paren_closes_argument_unfixed (cc : CharClass) (P : Profile)
-    (hP : P.doubledCloseParen = false) (more : List Char) (acc : List Piece) :
-    argB cc P (')' :: ')' :: more) acc = .ok acc (')' :: more) :=
-  argB_close_unfixed cc P hP _ acc
+    (hP : P.doubledCloseParen = false) (d : Nat) (more : List Char) (acc : List Piece) :
+    argB cc P d (')' :: ')' :: more) acc = .ok acc (')' :: more) :=
+  argB_close_unfixed cc P d hP _ acc
 
 /-- since the repair: `))` inside an argument is the piece `Text(")")`, and the loop goes on -/
 theorem C09_doubled_close_paren_is_literal (cc : CharClass) (P : Profile) (hP : P.doubledCloseParen = true)
-    (more : List Char) (acc : List Piece) :
-    argB cc P (')' :: ')' :: more) acc = argB cc P more (acc ++ [.text [')']]) :=
-  argB_dbl cc P hP more acc
+    (d : Nat) (more : List Char) (acc : List Piece) :
+    argB cc P d (')' :: ')' :: more) acc = argB cc P d more (acc ++ [.text [')']]) :=
+  argB_dbl cc P d hP more acc
 
 /-- F6 (a), end to end: `{(a)))}` was an error, and is `a)` now. -/
 theorem C09_F6_witness (B : Build) :
@@ -155,7 +221,7 @@ theorem C09_with_doubled_close_paren_holds : C09_with_doubled_close_paren Profil
   have hwf : WF Profile.debug64 [.group .align false [.lit ⟨'a', .plain⟩, .lit ⟨')', .doubled⟩] none] := by
     decide
   obtain ⟨o, ho, ht⟩ := C09_encode_parse_show asciiClass hcc Profile.debug64 rfl rfl
-    { B with mdcWhole := true } rfl env r _ hwf ⟨by intro f hf; simp [allDatesPats, allDatesPat] at hf,
+    { B with mdcWhole := true, mdcEmptyOk := true } rfl rfl env r _ hwf ⟨by intro f hf; simp [allDatesPats, allDatesPat] at hf,
       by intro x hx; simp [datesPats, datesPat] at hx⟩
   refine ⟨o, ?_, ht⟩
   rw [← ho]
@@ -167,16 +233,59 @@ theorem C09_F6_mdc_first_piece_only_unfixed (B : Build) (hB : B.mdcWhole = false
     (more : List Piece) (p : Params) :
     compile B (.arg ['X'] [.text k :: more] p) = .leaf (.mdc k []) p := by
   rw [compile_arg]
-  simp [groupOfName, leafOfName, leafTable, leafLookup, mdcChunk, mdcArgText, hB, mdcTextOf]
+  simp [groupOfName, leafOfName, leafTable, leafLookup, mdcChunk, mdcArg, mdcArgText, hB, mdcTextOf]
 
 /-- … now the whole text is the key -/
-theorem C09_mdc_whole_key_witness (B : Build) (hB : B.mdcWhole = true) :
+theorem C09_mdc_whole_key_witness (B : Build) (hB : B.mdcWhole = true) (hE : B.mdcEmptyOk = true) :
     newEncoder asciiClass Profile.debug64 B cs!"{X(a{{b)}" = .ok [.leaf (.mdc cs!"a{b" []) {}] := by
   have hp : parse asciiClass Profile.debug64 cs!"{X(a{{b)}" =
       .ok [.arg ['X'] [[.text ['a'], .text ['{'], .text ['b']]] {}] := by rfl
   simp only [newEncoder, hp, omap, compileL_cons, compileL_nil]
   rw [compile_arg]
-  simp [groupOfName, leafOfName, leafTable, leafLookup, mdcChunk, mdcArgText, hB, plainTextOf, plainTextLoop]
+  simp [groupOfName, leafOfName, leafTable, leafLookup, mdcChunk, mdcArg, mdcArgText, hB, plainTextOf, plainTextLoop]
+
+/-- `C09/mdc-empty-argument` (repaired in round 6): an explicitly empty MDC default `{X(k)()}` — and
+the empty key `{X()}` — was rejected (`invalid MDC default` / `invalid MDC key`) although the
+documented default of the default is the empty string; now it is the empty string. -/
+theorem C09_mdc_empty_argument_witness :
+    showPats [.mdc false [⟨'k', .plain⟩] (some []) none] = cs!"{X(k)()}" ∧
+    newEncoder asciiClass Profile.debug64 { renderOk := fun _ => true, mdcEmptyOk := false } cs!"{X(k)()}" =
+      .ok [.error cs!"invalid MDC default"] ∧
+    newEncoder asciiClass Profile.debug64 { renderOk := fun _ => true, mdcEmptyOk := false } cs!"{X()}" =
+      .ok [.error cs!"invalid MDC key"] ∧
+    newEncoder asciiClass Profile.debug64 { renderOk := fun _ => true } cs!"{X(k)()}" = .ok [.leaf (.mdc ['k'] []) {}] ∧
+    newEncoder asciiClass Profile.debug64 { renderOk := fun _ => true } cs!"{X()}" = .ok [.leaf (.mdc [] []) {}] := by
+  refine ⟨?_, ?_, ?_, ?_, ?_⟩ <;> rfl
+
+/-- the instance of the main statement with an explicitly empty MDC default: false before the repair … -/
+def C09_with_empty_mdc_default (B : Build) : Prop :=
+  ∀ (env : Env) (r : Record), ∃ o,
+    run asciiClass Profile.debug64 B env r (showPats [.mdc false [⟨'k', .plain⟩] (some []) none]) = .ok o ∧
+    o.text = denotePats env r [.mdc false [⟨'k', .plain⟩] (some []) none]
+
+theorem C09_with_empty_mdc_default_false_unfixed :
+    ¬ C09_with_empty_mdc_default { renderOk := fun _ => true, mdcEmptyOk := false } := by
+  intro h
+  obtain ⟨o, ho, ht⟩ := h witnessEnv witnessRecord
+  have hrun : run asciiClass Profile.debug64 { renderOk := fun _ => true, mdcEmptyOk := false } witnessEnv witnessRecord
+      (showPats [.mdc false [⟨'k', .plain⟩] (some []) none]) =
+      .ok (ofText (errorMarker cs!"invalid MDC default")) := by rfl
+  rw [hrun] at ho
+  cases ho
+  rw [ofText_text] at ht
+  have : denotePats witnessEnv witnessRecord [.mdc false [⟨'k', .plain⟩] (some []) none] = [] := by
+    simp [denotePats_cons, denotePats_nil, denotePat_mdc, applySpec, mdcValue, litChars, witnessEnv, mdcGet]
+  rw [this] at ht
+  exact absurd ht (by decide)
+
+/-- … and true of the current code (an instance of `C09_encode_parse_show`). -/
+theorem C09_with_empty_mdc_default_holds (B : Build) (hB : B.mdcWhole = true) (hE : B.mdcEmptyOk = true) :
+    C09_with_empty_mdc_default B := by
+  intro env r
+  have hcc : CCAscii asciiClass := by
+    intro c hc; simp [asciiClass, hc]
+  exact C09_encode_parse_show asciiClass hcc Profile.debug64 rfl rfl B hB hE env r _ (by decide)
+    ⟨by intro f hf; simp [allDatesPats, allDatesPat] at hf, by intro x hx; simp [datesPats, datesPat] at hx⟩
 
 /-! ## examples: the hypotheses are satisfiable on non-trivial inputs (tests) -/
 
@@ -200,9 +309,10 @@ example : WF Profile.debug64 [.mdc false [⟨'k', .plain⟩, ⟨'{', .doubled⟩
 /-- inside WF since the repair of F6a: `))` inside an argument, also in an MDC key -/
 example : WF Profile.debug64 [.group .align false [.lit ⟨')', .doubled⟩, .lit ⟨')', .doubled⟩] none] := by decide
 example : WF Profile.debug64 [.mdc false [⟨'k', .plain⟩, ⟨')', .doubled⟩] none none] := by decide
-/-- outside WF: an unescaped special; an empty MDC key; m > M -/
+/-- outside WF: an unescaped special; m > M -/
 example : ¬ WF Profile.debug64 [.lit ⟨')', .plain⟩] := by decide
-example : ¬ WF Profile.debug64 [.mdc false [] none none] := by decide
+/-- inside WF since the repair of `C09/mdc-empty-argument`: an empty MDC key, an explicitly empty default -/
+example : WF Profile.debug64 [.mdc false [] none none, .mdc true [⟨'k', .plain⟩] (some []) none] := by decide
 example : ¬ WF Profile.debug64 [.leaf .message false (some { minW := some [9], maxW := some [3] })] := by decide
 
 end Log4rs.Pattern.Parse
